@@ -12,7 +12,15 @@ func (self Compiler) CurrFn() *Function { return self.modules[self.currModule][s
 
 func (self Compiler) currLoop() Loop { return self.loops[len(self.loops)-1] }
 func (self *Compiler) pushLoop(l Loop) {
+	l.tryDepth = self.tryDepth
 	self.loops = append(self.loops, l)
+}
+
+// Inserts one `PopTryLabel` for every `try` block which a jump to the given loop's labels leaves.
+func (self *Compiler) leaveTryBlocks(l Loop, span errors.Span) {
+	for depth := self.tryDepth; depth > l.tryDepth; depth-- {
+		self.insert(newPrimitiveInstruction(Opcode_PopTryLabel), span)
+	}
 }
 func (self *Compiler) popLoop() {
 	self.loops = self.loops[:len(self.loops)-1]
